@@ -22,7 +22,7 @@ GEN_RULE = ("cases are drawn by rapid from the shared history generator (fs-op h
             "Events capacity drawn per case); distinct = hash of the skeleton (capacity + step kinds + directory of each path + success/failure of each step); ")
 
 def pure(rule, parts, quick, thorough, **kw):
-    d = dict(level="exploration", rule=rule, parts=parts, rapid=False, quick=dict(checks=quick, shards=1, cap_s=600),
+    d = dict(level="exploration", rule=rule, parts=parts, rapid=False, crash_is_violation=True, quick=dict(checks=quick, shards=1, cap_s=600),
              thorough=dict(checks=thorough, shards=4, cap_s=1800), assumptions=kw.pop("assumptions", []))
     d.update(kw)
     return d
